@@ -47,15 +47,14 @@ Definition check (c : c08case) : N :=
                                       | Ok q => contains q (unhex printed) || contains [34; 34; 34] (unhex printed)
                                       | _ => false end) (strings_of o)) then 1
             else
-              (* the printer's layout: on executable documents the printed text is print_doc of the
-                 (model's) AST of the source *)
+              (* the printer's layout: the printed text is print_doc of the (model's) AST of the source,
+                 for executable and type-system documents alike *)
               match parse (unhex src) with
               | Ok (d0, _) =>
-                if negb (exec_only d0) then 0
-                else if negb (gt_eqb false (g_doc d0) o) then 1
+                if negb (gt_eqb false (g_doc (norm_doc d0)) o) then 1
                 else if negb (bytes_eqb (print_doc d0) (unhex printed)) then 1
                 (* the hypothesis of C08_lex_layout holds for this document's layout (proved for every parsed
-                   executable document with valid UTF-8 strings; evaluated here as a cross-check) *)
+                   document with valid UTF-8 strings; evaluated here as a cross-check) *)
                 else if layout_wfb (lay_doc d0) then 0 else 1
               | _ => 1
               end
